@@ -1004,7 +1004,16 @@ def c19_extra(tier, seed, rundir, merged, hard, inconclusive, extra_cov, stages)
     # output that is only produced when isatty() is true (progress notes, colour, warnings "for
     # humans") is invisible to pipes. Any octet arriving at the master side is the library's.
     term = {}
-    for bp in [prop] + BROAD_PROPS:
+    try:
+        _m, _s = os.openpty()
+        os.close(_m)
+        os.close(_s)
+        pty_ok = True
+    except OSError as e:
+        # no pseudo-terminals in this environment: nothing is observed, nothing is claimed
+        pty_ok = False
+        term["unavailable"] = "os.openpty() failed: %s" % e
+    for bp in ([prop] + BROAD_PROPS) if pty_ok else []:
         sh_ = run_shards("rel", bp, "quick", seed, rundir, scale=1.0, watchdog=900, pty=True)
         octets = sum(x.err_bytes for x in sh_)
         m = Merged()
